@@ -24,6 +24,8 @@ JSXFREE = {
     'ts-blocks-with-slot': 'namespace Before {{ export const x = 1 }} const v = <Foo>{{f1()}}</Foo>; namespace After {{ export const y = () => <Foo>{{f1()}}</Foo>; export namespace Inner {{ export const z = 2 }} }} function f1() {{ return 0 }}',
     'use-client': '"use client";\nimport x from "./x";\nexport const a = <Foo>{{f1()}}</Foo>; function f1() {{ return 0 }}',
     'use-strict-fn': 'function g() {{ "use strict"; "second directive"; return <Foo>{{f1()}}</Foo>; }} const h = () => {{ "use strict"; return <Foo>{{f1()}}</Foo>; }}; class K {{ m() {{ "use strict"; v = <Foo>{{v}}</Foo>; }} }} function f1() {{ return 0 }} let v;',
+    'bare-loops': 'const out = []; let v; function f1(a) {{ return a }} for (const x of [1, 2]) out.push(<Foo>{{f1(x)}}</Foo>); for (let i = 0; i < 2; i++) v = <Foo>{{v}}</Foo>; while (f1()) out.push(<Foo>{{f1()}}</Foo>); '
+                  'do out.push(<b/>); while (f1()); for (const k in out) if (k) out.push(<Foo>{{f1(k)}}</Foo>); lbl: for (;;) break lbl;',
     'comments': '/* @jsx h */\n// @jsx other\nconst a = 1; /** @jsxFrag F */ const b = 2;',
     'define-like': 'function defineComponent(o) {{ return o }} const C = defineComponent({{ name: "x" }});',
     'vue-import-no-call': 'import {{ defineComponent, ref }} from "vue"; const r = ref(1);',
@@ -143,6 +145,20 @@ class Frame:
                     if last is None or last.variant != 'Return' or not head or not all(generated_item(ctx, x) for x in head) or not is_some(last.fields[0].get('arg')):
                         return self.fail(path + '/body', 'arrow body converted to something else than {generated declarations; return expr}')
                     ok = self.same(ab.fields[0], last.fields[0].get('arg').fields[0], path + '/body')
+                    for i, n in enumerate(a.names):
+                        if n != 'body' and n != 'span':
+                            ok = ok and self.same(a.fields[i], b.fields[i], path + '/' + n)
+                    return ok
+            if a.ty == b.ty and a.ty in ('ForStmt', 'ForInStmt', 'ForOfStmt', 'WhileStmt', 'DoWhileStmt'):
+                # a loop body written without braces may become a block that only holds generated declarations and that body
+                # (what one iteration declares must not be shared with the next) - and only when there is something to declare
+                ab = deref(a.get('body')); bb = deref(b.get('body'))
+                if ab.variant != 'Block' and bb.variant == 'Block':
+                    st = bb.fields[0].get('stmts')
+                    head, last = st[:-1], st[-1] if st else None
+                    if last is None or not head or not all(generated_item(ctx, x) for x in head):
+                        return self.fail(path + '/body', 'loop body converted to something else than {generated declarations; the body}')
+                    ok = self.same(ab, last, path + '/body')
                     for i, n in enumerate(a.names):
                         if n != 'body' and n != 'span':
                             ok = ok and self.same(a.fields[i], b.fields[i], path + '/' + n)
